@@ -440,9 +440,17 @@ def grid_cases(ctx):
             names_pool = want[:3] + [u"new-a", u"new-b"]
             ops, expect = [], []
             for j in range(r.choice([5, 6, 8])):
-                kind = r.choice(["set_metadata_for", "set_metadata_for", "delete", "set_uri", "set_uri", "set_metadata_for"])
+                kind = r.choice(["set_metadata_for", "set_metadata_for", "delete", "set_uri", "set_uri", "set_metadata_for", "list", "has_child", "list"])
+                if j == 0:
+                    kind = "list"           # a read is in flight while the edits behind it are requested
                 nm = r.choice(names_pool)
-                if kind == "delete":
+                if kind == "list":
+                    expect.append(("names", sorted(model)))
+                    ops.append((kind, None, None))
+                elif kind == "has_child":
+                    expect.append(("bool", nm in model))
+                    ops.append((kind, nm, None))
+                elif kind == "delete":
                     expect.append("ok" if nm in model else "NoSuchChildError")
                     model.pop(nm, None)
                     ops.append((kind, nm, None))
@@ -461,7 +469,11 @@ def grid_cases(ctx):
             dsm = []
             for j, (kind, nm, arg) in enumerate(ops):
                 h = hs[r.randrange(len(hs))]
-                if kind == "delete":
+                if kind == "list":
+                    dsm.append(h.list())
+                elif kind == "has_child":
+                    dsm.append(h.has_child(nm))
+                elif kind == "delete":
                     dsm.append(h.delete(nm))
                 elif kind == "set_uri":
                     dsm.append(h.set_uri(nm, arg, arg))
@@ -474,7 +486,16 @@ def grid_cases(ctx):
             if outm.status != "ok" or final.status != "ok":
                 ctx.oracle_fail("concurrent-edit-failed", "a batch of directory edits did not finish: %r / %r" % (outm, final), case=case)
             else:
-                got = ["ok" if ok_ else ("NoSuchChildError" if res_.check(NoSuchChildError) else res_.type.__name__) for ok_, res_ in outm.value]
+                got = []
+                for (ok_, res_), exp_ in zip(outm.value, expect):
+                    if not ok_:
+                        got.append("NoSuchChildError" if res_.check(NoSuchChildError) else res_.type.__name__)
+                    elif isinstance(exp_, tuple) and exp_[0] == "names":
+                        got.append(("names", sorted(res_.keys())))       # a read answers with the state at ITS place in the request order
+                    elif isinstance(exp_, tuple) and exp_[0] == "bool":
+                        got.append(("bool", bool(res_)))
+                    else:
+                        got.append("ok")
                 have = dict((nm, (ch[0].get_uri(), dict((k_, v_) for k_, v_ in ch[1].items() if k_ != "tahoe") or None)) for nm, ch in final.value.items())
                 wantm = dict((nm, (c_, m_ or None)) for nm, (c_, m_) in model.items())
                 # user metadata is only judged where the last word on it was a set_metadata_for
